@@ -29,18 +29,21 @@ Tok(s, g) == <<[s |-> s, g |-> g, tags |-> <<>>]>>
 TokT(s, g, tag) == <<[s |-> s, g |-> g, tags |-> <<tag>>]>>
 AlsoTag(items, tag) == [items EXCEPT ![1].tags = Append(@, tag)]
 
-RECURSIVE EscapeFrom(_, _)
-EscapeFrom(s, i) ==
+\* raw: line breaks and tabs are written as they are (a string literal may span lines; what follows it is then on a later row)
+RECURSIVE EscapeFrom(_, _, _)
+EscapeFrom(s, i, raw) ==
   IF i > Len(s) THEN ""
   ELSE LET c == CharAt(s, i)
            e == IF c = QUOTE THEN BACKSLASH \o QUOTE
                 ELSE IF c = BACKSLASH THEN BACKSLASH \o BACKSLASH
+                ELSE IF c \in {NL, TAB} /\ raw THEN c
                 ELSE IF c = NL THEN BACKSLASH \o "n"
                 ELSE IF c = TAB THEN BACKSLASH \o "t"
                 ELSE IF c = CR THEN BACKSLASH \o "r"
                 ELSE c
-       IN e \o EscapeFrom(s, i + 1)
-StringLit(s) == QUOTE \o EscapeFrom(s, 1) \o QUOTE
+       IN e \o EscapeFrom(s, i + 1, raw)
+StringLit(s) == QUOTE \o EscapeFrom(s, 1, FALSE) \o QUOTE
+StringLitRaw(s) == QUOTE \o EscapeFrom(s, 1, TRUE) \o QUOTE
 
 Digit(d) == SubSeq("0123456789", d + 1, d + 1)
 RECURSIVE DecStr(_, _)
@@ -64,7 +67,7 @@ RExpr(e) ==
     [] e.k = "true" -> Tok("#true", "may0")
     [] e.k = "false" -> Tok("#false", "may0")
     [] e.k = "int" -> Tok(DecStr(e.hi, e.lo), "may0")
-    [] e.k = "str" -> Tok(StringLit(e.v), "may0")
+    [] e.k = "str" -> Tok(IF e.raw THEN StringLitRaw(e.v) ELSE StringLit(e.v), "may0")
     [] e.k \in {"list", "set"} ->
          LET o == IF e.k = "list" THEN "[" ELSE "{"  c == IF e.k = "list" THEN "]" ELSE "}" IN
          Tok(o, "may0") \o RExprList(e.elems, 1, e.trail) \o Tok(c, "may0")
